@@ -37,3 +37,6 @@ package swagtool
 
 //@ func GetJsonNameFromTag props C07,C14
 //@ ensures true
+
+//@ func ForceOrderedJSON props C08,C14 havocs
+//@ ensures implies(result1 != nil, len(result0) == 0)
